@@ -7,7 +7,7 @@ import math
 from sym import Engine, show, walk
 from intervals import Intervals
 from floorlin import FloorLinear
-from rules.common import check_float_domain_guard, events_calling
+from rules.common import check_float_domain_guard, events_calling, cval
 
 HALF_PI = math.pi / 2
 
@@ -163,6 +163,53 @@ def assembly(ctx, crate, clause):
                sample={"hash_term": show(t)[:200]})
 
 
+def debug_only_on_offset(ctx, clause="longitude-reduction"):
+    """N: a comparison that only the dev profile establishes (a `debug_assert!`) on the reduced
+    longitude offset must hold on the whole closed range the reduction gives it ([-1, 1], both ends
+    reached on the meridians): otherwise legal positions panic in debug builds while release builds
+    answer.  Facts at the returns of `d0h_lh_in_d0c` in the dev profile that the release profile does
+    not have, whose one side is a floor-linear form of x = |lon| 4/pi and the other a constant."""
+    fn = "nested::Layer::d0h_lh_in_d0c"
+    facts = {}
+    for cfg in ("rel", "dbg"):
+        crate = ctx.crate(cfg)
+        b = ctx.anchor(crate, fn, clause)
+        if b is None: return
+        acc = set()
+        e = Engine(crate)
+        def eh(body, s_, t_, st, fk, acc=acc):
+            if t_ != "return" and not (isinstance(t_, int) and body.blocks[t_]["term"]["k"] == "return"): return
+            acc.update(f for f in st.facts if f[0] == 'b' and f[1][0] == 'op' and f[1][1] in ('lt', 'le', 'gt', 'ge'))
+        e.edge_hook = eh
+        e.run(fn); ctx.functions |= e.visited_fns
+        facts[cfg] = (acc, e)
+    only, e = facts["dbg"][0] - facts["rel"][0], facts["dbg"][1]
+    bad = []; n = 0
+    for f in only:
+        t, truth = f[1], f[2]
+        for side, other, flip in ((t[3], t[4], False), (t[4], t[3], True)):
+            c = cval(other)
+            if c is None: continue
+            xs = find_x(side)
+            for p_, ops in e.phi_ops.items():
+                if any(y == p_ for y in walk(side)):
+                    for o in ops: xs |= find_x(o)
+            if len(xs) != 1: continue
+            fl = FloorLinear(next(iter(xs)), 64.0, e.phi_ops)
+            v = fl.ev(side)
+            if v is None or v.is_int: continue
+            lo, hi = fl.conc(v)
+            op = t[1]
+            if flip: op = {'lt': 'gt', 'le': 'ge', 'gt': 'lt', 'ge': 'le'}[op]
+            if not truth: op = {'lt': 'ge', 'le': 'gt', 'gt': 'le', 'ge': 'lt'}[op]
+            n += 1
+            holds = (op == 'lt' and hi < c) or (op == 'le' and hi <= c) or (op == 'gt' and lo > c) or (op == 'ge' and lo >= c)
+            if not holds: bad.append((show(t)[:80] + (" is %s" % truth), lo, hi, c))
+    ctx.report(clause, fn + ":debug-assertions-cover-the-offset-range", not bad,
+               "%d comparison(s) established only in the dev profile on the reduced longitude" % n if not bad else
+               "the dev profile requires %s, but the reduced offset ranges over [%s, %s] (ends reached on the meridians lon = k pi/2), compared with %s: such positions panic in debug builds" % bad[0], kind="N")
+
+
 def clamp(ctx, crate, HV2="nested::Layer::hash_v2"):
     clause = "clamp"
     SRC = "nested::Layer::d0h_lh_in_d0c"; BUILD = "nested::Layer::build_hash_from_parts"
@@ -199,6 +246,7 @@ def run(ctx):
     crate = ctx.crate("rel")
     base_cell_bound(ctx, crate, "base-cell<=11")
     reduction(ctx, crate, "nested::Layer::xpm1_and_q", "longitude-reduction")
+    debug_only_on_offset(ctx)
     for cfg in ("rel", "dbg"):
         quarter_table(ctx, ctx.crate(cfg), cfg)
     assembly(ctx, crate, "assembly")
